@@ -704,97 +704,7 @@ Section RoundTrip.
   Qed.
 End RoundTrip.
 
-(* ---------- programs of shapes without std::map never load from inside a VisitKeys callback ---------- *)
-Lemma each_free_areqs_app a : forall b, each_free_areqs (mk_areqs (a ++ b)) = each_free_areqs (mk_areqs a) && each_free_areqs (mk_areqs b).
-Proof. induction a as [|x a IH]; intros b; [reflexivity|]. cbn [app mk_areqs each_free_areqs]. rewrite IH, andb_assoc. reflexivity. Qed.
-Lemma each_free_reqs_app a : forall b, each_free_reqs (mk_reqs (a ++ b)) = each_free_reqs (mk_reqs a) && each_free_reqs (mk_reqs b).
-Proof. induction a as [|x a IH]; intros b; [reflexivity|]. cbn [app mk_reqs each_free_reqs]. rewrite IH, andb_assoc. reflexivity. Qed.
-
-Lemma vec_body_free prog_e : (forall v, each_free_areqs (mk_areqs (prog_e v)) = true) ->
-  forall vs, each_free_areqs (mk_areqs (vec_body prog_e vs)) = true.
-Proof.
-  intros H. induction vs as [|v vs IH]; [reflexivity|]. unfold vec_body in *. cbn [flat_map]. rewrite <- !app_assoc. cbn [app mk_areqs each_free_areqs each_free_areq andb].
-  rewrite each_free_areqs_app, H, IH. reflexivity.
-Qed.
-Lemma arr_prog_free prog_e v : (forall v, each_free_areqs (mk_areqs (prog_e v)) = true) -> each_free_areqs (arr_prog prog_e v) = true.
-Proof. intros H. destruct v; try reflexivity. apply vec_body_free. exact H. Qed.
-Lemma u8_prog_free v : each_free_areqs (mk_areqs (u8_prog v)) = true.
-Proof. reflexivity. Qed.
-
-Lemma members_prog_free o kvs ms :
-  Forall (fun m => forall q ov, each_free_reqs (mk_reqs (member_prog o (snd m) q ov)) = true) ms ->
-  each_free_reqs (mk_reqs (members_prog (member_prog o) kvs ms)) = true.
-Proof.
-  induction 1 as [|[name s'] ms Hm _ IH]; [reflexivity|]. cbn [members_prog snd] in *. rewrite each_free_reqs_app, Hm, IH. reflexivity.
-Qed.
-
-Theorem progs_each_free o : forall s, map_free s = true ->
-  (forall v, each_free_areqs (mk_areqs (elem_prog o s v)) = true) /\
-  (forall q ov, each_free_reqs (mk_reqs (member_prog o s q ov)) = true).
-Proof.
-  apply (shape_ind' (fun s => map_free s = true ->
-    (forall v, each_free_areqs (mk_areqs (elem_prog o s v)) = true) /\
-    (forall q ov, each_free_reqs (mk_reqs (member_prog o s q ov)) = true))).
-  - intros s Hs _. split; intros; destruct s; try destruct Hs; reflexivity.
-  - intros _. split.
-    + intros v. destruct v; try reflexivity;
-        cbn [MpLoadModel.elem_prog mk_areqs each_free_areqs each_free_areq andb]; rewrite (arr_prog_free u8_prog _ u8_prog_free); reflexivity.
-    + intros q ov. destruct ov as [v|]; [|reflexivity]. destruct v; try reflexivity;
-        cbn [MpLoadModel.member_prog mk_reqs each_free_reqs each_free_req andb]; rewrite (arr_prog_free u8_prog _ u8_prog_free); reflexivity.
-  - intros e IH Hf. cbn [map_free] in Hf. destruct (IH Hf) as [He _]. split.
-    + intros v. rewrite elem_prog_vec. cbn [mk_areqs each_free_areqs each_free_areq]. rewrite (arr_prog_free _ v He). reflexivity.
-    + intros q ov. rewrite member_prog_vec. cbn [mk_reqs each_free_reqs each_free_req]. destruct ov as [v|]; [|reflexivity].
-      rewrite (arr_prog_free _ v He). reflexivity.
-  - intros ms IH Hf. rewrite map_free_class, forallb_forall in Hf.
-    assert (Hm : Forall (fun m => forall q ov, each_free_reqs (mk_reqs (member_prog o (snd m) q ov)) = true) ms).
-    { rewrite Forall_forall in IH. apply Forall_forall. intros m Hin. exact (proj2 (IH m Hin (Hf m Hin))). }
-    split.
-    + intros v. rewrite elem_prog_class. cbn [mk_areqs each_free_areqs each_free_areq]. destruct v; try reflexivity.
-      rewrite (members_prog_free o l ms Hm). reflexivity.
-    + intros q ov. rewrite member_prog_class. cbn [mk_reqs each_free_reqs each_free_req]. destruct ov as [v|]; [|reflexivity].
-      destruct v; try reflexivity. rewrite (members_prog_free o l ms Hm). reflexivity.
-  - intros ks e _ Hf. discriminate Hf.
-  - intros n e IH Hf. cbn [map_free] in Hf. destruct (IH Hf) as [He _]. split.
-    + intros v. rewrite elem_prog_arr. cbn [mk_areqs each_free_areqs each_free_areq]. rewrite (arr_prog_free _ v He). reflexivity.
-    + intros q ov. rewrite member_prog_arr. cbn [mk_reqs each_free_reqs each_free_req]. destruct ov as [v|]; [|reflexivity].
-      rewrite (arr_prog_free _ v He). reflexivity.
-  - intros _. split.
-    + intros v. rewrite elem_prog_vb. cbn [mk_areqs each_free_areqs each_free_areq]. rewrite (arr_prog_free bool_prog v (fun _ => eq_refl)). reflexivity.
-    + intros q ov. rewrite member_prog_vb. cbn [mk_reqs each_free_reqs each_free_req]. destruct ov as [v|]; [|reflexivity].
-      rewrite (arr_prog_free bool_prog v (fun _ => eq_refl)). reflexivity.
-Qed.
-
-(* a value of a static shape has no NaN key: its map keys are strings and integers *)
-Lemma has_shape_keys_refl : forall v s, has_shape v s = true -> keys_refl (abs v) = true.
-Proof.
-  apply (tv_ind2 (fun v => forall s, has_shape v s = true -> keys_refl (abs v) = true)); try (intros; reflexivity).
-  - intros l HF s Hs.
-    assert (Hall : exists e, all_shape e l = true).
-    { destruct s; try discriminate Hs.
-      - exists s. rewrite has_shape_arr in Hs. exact Hs.
-      - exists s. rewrite has_shape_arrn in Hs. apply andb_true_iff in Hs. apply Hs.
-      - exists SBool. rewrite has_shape_vb in Hs. clear HF. induction l as [|x l IH]; [reflexivity|].
-        destruct x; try discriminate Hs. cbn [all_shape has_shape all_bool] in *. exact (IH Hs). }
-    destruct Hall as [e He]. clear Hs. cbn [abs keys_refl].
-    induction l as [|x l IH]; [reflexivity|]. inversion HF as [|? ? Hx Hl]; subst. cbn [all_shape] in He.
-    apply andb_true_iff in He. destruct He as [Hsx Hsl]. cbn [map forallb]. rewrite (Hx e Hsx), (IH Hl Hsl). reflexivity.
-  - intros kvs HF s Hs. rewrite abs_obj. cbn [keys_refl]. destruct s; try discriminate Hs.
-    + rewrite has_shape_obj in Hs. revert ms Hs. induction kvs as [|[k x] kvs IH]; intros ms Hs; [reflexivity|].
-      destruct ms as [|[name s'] ms']; [discriminate Hs|]. cbn [class_shape] in Hs.
-      apply andb_true_iff in Hs. destruct Hs as [Hs Hsl]. apply andb_true_iff in Hs. destruct Hs as [Hk Hsx].
-      inversion HF as [|? ? [_ Hx] Hl]; subst. cbn [fst snd] in Hx. cbn [map forallb]. unfold absp at 1. cbn [fst snd].
-      rewrite (Hx s' Hsx), (IH Hl ms' Hsl). destruct k; try discriminate Hk. cbn [abs keyden key_eq].
-      rewrite (proj2 (bytes_eqb_eq s s) eq_refl). reflexivity.
-    + rewrite has_shape_map in Hs. apply andb_true_iff in Hs. destruct Hs as [Hs _].
-      induction kvs as [|[k x] kvs IH]; [reflexivity|]. cbn [map_shape] in Hs.
-      apply andb_true_iff in Hs. destruct Hs as [Hs Hsl]. apply andb_true_iff in Hs. destruct Hs as [Hk Hsx].
-      inversion HF as [|? ? [_ Hx] Hl]; subst. cbn [fst snd] in Hx. cbn [map forallb]. unfold absp at 1. cbn [fst snd].
-      rewrite (Hx s Hsx), (IH Hl Hsl). destruct k, ks; try discriminate Hk; cbn [abs keyden key_eq].
-      * rewrite Z.eqb_refl. reflexivity.
-      * rewrite (proj2 (bytes_eqb_eq s0 s0) eq_refl). reflexivity.
-Qed.
-
-(* ---------- transport to the scope model on the bytes (T_C03_mp_refines_outside) ---------- *)
+(* ---------- transport to the scope model on the bytes (T_C03_mp_refines) ---------- *)
 Section Transport.
   Variable narrow : N -> option N.
   Variable widen : N -> N.
@@ -806,78 +716,68 @@ Section Transport.
   Notation elem_prog := (elem_prog o).
 
   (* a class at the root: LoadObject opens the root object scope and runs value.Serialize(scope).
-     The document: any the reference decoder accepts with supported, pairwise different keys; if the class has a
-     std::map somewhere, moreover no NaN key (known finding M01 of C03) *)
+     The document: any the reference decoder accepts with supported, pairwise different keys *)
   Theorem load_class_on_model data kvs rest ms toks r :
     bytes data -> decode data = Some (MMap kvs, rest) -> doc_ok (MMap kvs) = true ->
-    (map_free (SClass ms) = true \/ keys_refl (MMap kvs) = true) ->
     load_tr (SClass ms) (MMap kvs) = (toks, r) -> no_err r ->
     run_obj_root narrow widen o data (class_prog ms kvs) = Done toks rest false /\
     load_obj narrow widen o data (class_prog ms kvs) = MpScopeModel.LOk toks rest.
   Proof.
-    intros Hb Hd Hok HG H Hn. cbn [MpLoadModel.load_tr] in H.
+    intros Hb Hd Hok H Hn. cbn [MpLoadModel.load_tr] in H.
     destruct (members_tr load_tr kvs ms) as [[t fields] err] eqn:Et. destruct err as [err|].
     { injection H as _ <-. destruct Hn. }
     injection H as <- _.
     assert (Hm : Forall (fun m => member_ok narrow widen o (snd m)) ms)
       by (apply Forall_forall; intros m _; apply progs_ok).
     destruct (members_loop narrow widen o kvs ms Hm (dok_class ms kvs (or_intror Hok)) t fields Et) as [c E].
-    assert (HG' : guard (each_free_reqs (class_prog ms kvs)) (MMap kvs)).
-    { destruct HG as [HG | HG]; [left | right; exact HG]. unfold MpLoadModel.class_prog. apply members_prog_free.
-      rewrite map_free_class, forallb_forall in HG. apply Forall_forall. intros m Hin. exact (proj2 (progs_each_free o (snd m) (HG m Hin))). }
-    pose proof (obj_root_refines narrow widen o data kvs rest (class_prog ms kvs) t c Hb Hd Hok HG' E) as R.
+    pose proof (obj_root_refines narrow widen o data kvs rest (class_prog ms kvs) t c Hb Hd Hok E) as R.
     split; [exact R|]. unfold load_obj. rewrite R. reflexivity.
   Qed.
 
   (* a std::map at the root *)
   Theorem load_map_on_model data kvs rest ks e toks r :
-    bytes data -> decode data = Some (MMap kvs, rest) -> doc_ok (MMap kvs) = true -> keys_refl (MMap kvs) = true ->
+    bytes data -> decode data = Some (MMap kvs, rest) -> doc_ok (MMap kvs) = true ->
     load_tr (SMap ks e) (MMap kvs) = (toks, r) -> no_err r ->
     run_obj_root narrow widen o data (map_prog ks e kvs) = Done toks rest false /\
     load_obj narrow widen o data (map_prog ks e kvs) = MpScopeModel.LOk toks rest.
   Proof.
-    intros Hb Hd Hok Hrf H Hn. cbn [MpLoadModel.load_tr] in H.
+    intros Hb Hd Hok H Hn. cbn [MpLoadModel.load_tr] in H.
     destruct (entries_tr o ks e (load_tr e) kvs) as [[t es] err] eqn:Et. destruct err as [err|].
     { injection H as _ <-. destruct Hn. }
     injection H as <- _.
     destruct (entries_loop narrow widen o ks e kvs (proj2 (proj2 (progs_ok narrow widen o e))) Hok kvs [] eq_refl t es Et) as [c E].
     assert (E' : spec_reqs narrow widen o kvs (map_prog ks e kvs) = (t, None, c && true)).
     { unfold MpLoadModel.map_prog. cbn [mk_reqs]. rewrite spec_reqs_cons, spec_req_each, E. cbn [MpScopeSpec.spec_reqs]. rewrite app_nil_r. reflexivity. }
-    pose proof (obj_root_refines narrow widen o data kvs rest (map_prog ks e kvs) t _ Hb Hd Hok (or_intror Hrf) E') as R.
+    pose proof (obj_root_refines narrow widen o data kvs rest (map_prog ks e kvs) t _ Hb Hd Hok E') as R.
     split; [exact R|]. unfold load_obj. rewrite R. reflexivity.
   Qed.
 
   (* a sequence container at the root *)
   Theorem load_vec_on_model data vs rest e toks r :
     bytes data -> decode data = Some (MArr vs, rest) -> doc_ok (MArr vs) = true ->
-    (map_free (SVec e) = true \/ keys_refl (MArr vs) = true) ->
     load_tr (SVec e) (MArr vs) = (toks, r) -> no_err r ->
     run_arr_root narrow widen o data (vec_prog e vs) = Done toks rest false /\
     load_arr narrow widen o data (vec_prog e vs) = MpScopeModel.LOk toks rest.
   Proof.
-    intros Hb Hd Hok HG H Hn. cbn [MpLoadModel.load_tr] in H. unfold vec_tr in H.
+    intros Hb Hd Hok H Hn. cbn [MpLoadModel.load_tr] in H. unfold vec_tr in H.
     destruct (elems_tr e (load_tr e) vs) as [[t items] err] eqn:Et. destruct err as [err|].
     { injection H as _ <-. destruct Hn. }
     injection H as <- _.
     destruct (vec_loop narrow widen o e (load_tr e) (elem_prog e) (dok e) (proj1 (progs_ok narrow widen o e)) vs t items
                 (dok_vec e vs (or_intror Hok)) Et) as [c E].
-    assert (HG' : guard (each_free_areqs (vec_prog e vs)) (MArr vs)).
-    { destruct HG as [HG | HG]; [left | right; exact HG]. unfold MpLoadModel.vec_prog. apply vec_body_free.
-      exact (proj1 (progs_each_free o e HG)). }
-    pose proof (arr_root_refines narrow widen o data vs rest (vec_prog e vs) t c [] Hb Hd Hok HG' E) as R.
+    pose proof (arr_root_refines narrow widen o data vs rest (vec_prog e vs) t c [] Hb Hd Hok E) as R.
     split; [exact R|]. unfold load_arr. rewrite R. reflexivity.
   Qed.
 
   (* a fixed-size array at the root: an error-free load (the counts agree) is the load of a sequence container *)
   Theorem load_fixed_on_model data vs rest n e toks r :
     bytes data -> decode data = Some (MArr vs, rest) -> doc_ok (MArr vs) = true ->
-    (map_free (SArr n e) = true \/ keys_refl (MArr vs) = true) ->
     load_tr (SArr n e) (MArr vs) = (toks, r) -> no_err r ->
     run_arr_root narrow widen o data (vec_prog e vs) = Done toks rest false /\
     load_arr narrow widen o data (vec_prog e vs) = MpScopeModel.LOk toks rest.
   Proof.
-    intros Hb Hd Hok HG H Hn.
-    exact (load_vec_on_model data vs rest e toks r Hb Hd Hok HG (arr_as_vec narrow widen o n e (MArr vs) toks r H Hn) Hn).
+    intros Hb Hd Hok H Hn.
+    exact (load_vec_on_model data vs rest e toks r Hb Hd Hok (arr_as_vec narrow widen o n e (MArr vs) toks r H Hn) Hn).
   Qed.
 
   (* std::vector<bool> at the root *)
@@ -892,8 +792,7 @@ Section Transport.
     { injection H' as _ <-. destruct Hn'. }
     injection H' as <- _.
     destruct (vec_loop narrow widen o SBool _ bool_prog (any) (bool_elem narrow widen o) vs t items (any_all vs) Et) as [c E].
-    pose proof (arr_root_refines narrow widen o data vs rest (mk_areqs (vec_body bool_prog vs)) t c [] Hb Hd Hok
-                  (or_introl (vec_body_free bool_prog (fun _ => eq_refl) vs)) E) as R.
+    pose proof (arr_root_refines narrow widen o data vs rest (mk_areqs (vec_body bool_prog vs)) t c [] Hb Hd Hok E) as R.
     split; [exact R|]. unfold load_arr. rewrite R. reflexivity.
   Qed.
 
@@ -914,7 +813,7 @@ Section Transport.
   Proof.
     intros Hs Hw Hd Hsv Hb. destruct (load_save_spec narrow widen o _ _ Hs Hw Hd) as [toks E].
     exists toks. split; [exact E|]. rewrite abs_obj in *.
-    exact (load_class_on_model b (map absp kvs) [] ms toks _ Hb (save_decodes _ b Hw Hsv) Hd (or_intror (has_shape_keys_refl _ _ Hs)) E I).
+    exact (load_class_on_model b (map absp kvs) [] ms toks _ Hb (save_decodes _ b Hw Hsv) Hd E I).
   Qed.
 
   Theorem load_save_map_on_model kvs ks e b :
@@ -925,8 +824,8 @@ Section Transport.
       load_obj narrow widen o b (map_prog ks e (map absp kvs)) = MpScopeModel.LOk toks [].
   Proof.
     intros Hs Hw Hd Hsv Hb. destruct (load_save_spec narrow widen o _ _ Hs Hw Hd) as [toks E].
-    exists toks. split; [exact E|]. pose proof (has_shape_keys_refl _ _ Hs) as Hrf. rewrite abs_obj in *.
-    exact (load_map_on_model b (map absp kvs) [] ks e toks _ Hb (save_decodes _ b Hw Hsv) Hd Hrf E I).
+    exists toks. split; [exact E|]. rewrite abs_obj in *.
+    exact (load_map_on_model b (map absp kvs) [] ks e toks _ Hb (save_decodes _ b Hw Hsv) Hd E I).
   Qed.
 
   Theorem load_save_vec_on_model l e b :
@@ -938,7 +837,7 @@ Section Transport.
   Proof.
     intros Hs Hw Hd Hsv Hb. destruct (load_save_spec narrow widen o _ _ Hs Hw Hd) as [toks E].
     exists toks. split; [exact E|].
-    exact (load_vec_on_model b (map abs l) [] e toks _ Hb (save_decodes _ b Hw Hsv) Hd (or_intror (has_shape_keys_refl _ _ Hs)) E I).
+    exact (load_vec_on_model b (map abs l) [] e toks _ Hb (save_decodes _ b Hw Hsv) Hd E I).
   Qed.
 
   (* ---------- the result depends on the document only through the lookups of the member names ---------- *)
